@@ -183,6 +183,13 @@ func (c *conv) rec(x interface{}) string { return c.record(reflect.ValueOf(x)) }
 // jsonRecord renders a JSON object as a record over the given leaf paths: strings are byte
 // strings, numbers integers, absent members nil.
 func jsonRecord(js []byte, leaves [][]string) (string, error) {
+	return jsonRecordT(js, leaves, nil)
+}
+
+// jsonRecordT is jsonRecord with the set of top-level members of Go type string / integer: when
+// such a member is absent the decoder's struct holds "" / 0 (byte-slice members stay nil, and so
+// do the members of an absent nested object).
+func jsonRecordT(js []byte, leaves [][]string, zero map[string]string) (string, error) {
 	var m map[string]interface{}
 	d := json.NewDecoder(strings.NewReader(string(js)))
 	d.UseNumber()
@@ -204,6 +211,9 @@ func jsonRecord(js []byte, leaves [][]string) (string, error) {
 		switch x := cur.(type) {
 		case nil:
 			v = "VNil"
+			if len(p) == 1 && zero[p[0]] != "" {
+				v = zero[p[0]]
+			}
 		case string:
 			v = vbytes([]byte(x))
 		case json.Number:
